@@ -37,7 +37,7 @@ pub fn check() -> Check {
                Oracle: after every non-Enter byte the handler-invocation count is unchanged; at Enter the handler is invoked exactly once with the reference tokens/classification of the line, or not at all for blank lines and help requests; \
                the line Enter acts on (hook) must at every step equal both the ideal-editor model of the keys typed and what the terminal emulator shows after the prompt (the visible line); \
                afterwards the line is empty and the terminal emulator shows one fresh prompt on a new last row. \
-               Non-trivial = an Enter on a line with at least one token that was built using a cursor move, backspace, recall, completion or a rejected character; distinct by (line bytes, buffer sizes).",
+               Non-trivial = an Enter on a line with at least one token that was built using a cursor move, backspace, recall, completion or a rejected character; distinct by (line bytes, buffer sizes). Evaluations count every API call (input byte, application write, prompt change) that was followed by the oracle, plus one per session; a coverage-guided campaign (libFuzzer + ASan, 16 processes, same oracle inside the target) searches the same session space and what it keeps is re-run and classified here.",
         assumptions: &[
             "recall and completion replace the model line by the observed one (their content is C10's / C11's business); keys use canonical encodings (terminator and CSI corner cases belong to C04)",
             "lines touching quoting escapes left open by C07 are checked for the invocation count only; `help` followed by an option is left open (skipped_unspecified)",
